@@ -1,0 +1,45 @@
+//go:build verif
+
+// Package vhook provides named points that verification tooling can intercept
+// when built with the "verif" build tag.
+package vhook
+
+import (
+	"math"
+	"sync/atomic"
+)
+
+var handler atomic.Pointer[func(string)]
+
+var pinnedRate atomic.Uint64
+
+// SetHandler installs the function called at every Point. A nil handler
+// removes the current one.
+func SetHandler(h func(name string)) {
+	if h == nil {
+		handler.Store(nil)
+		return
+	}
+	handler.Store(&h)
+}
+
+// Point marks a named location between two steps of an operation.
+func Point(name string) {
+	if h := handler.Load(); h != nil {
+		(*h)(name)
+	}
+}
+
+// PinRate makes Rate return r instead of the measured rate. A value of 0
+// removes the pin.
+func PinRate(r float64) {
+	pinnedRate.Store(math.Float64bits(r))
+}
+
+// Rate returns the pinned flush rate, or the measured rate if none is pinned.
+func Rate(measured float64) float64 {
+	if r := math.Float64frombits(pinnedRate.Load()); r != 0 {
+		return r
+	}
+	return measured
+}
